@@ -40,6 +40,15 @@ type Case struct {
 	Canon  []int  `json:"canon"`
 	Strict bool   `json:"strict"`
 	Why    string `json:"why"`
+	Twin   []int  `json:"twin"`   // kind twins: same bytes up to Extent, every byte after it different
+	Extent int    `json:"extent"`
+}
+
+// kept: encodings handed out earlier; they are values - later calls of the encoder must not change them
+type keptEnc struct {
+	got  []byte
+	spec []byte
+	idx  int
 }
 
 func toBytes(a []int) []byte {
@@ -295,6 +304,7 @@ func TestReplay(t *testing.T) {
 	}
 	defer out.Close()
 	n := 0
+	var kept []keptEnc
 	// every case is replayed twice in this process, the second time in reverse order: the outcome of a case is a function of the
 	// case, not of what the process did before (memos, pools and lazily built tables keyed by too little would show here)
 	n0 := len(cases)
@@ -307,6 +317,18 @@ func TestReplay(t *testing.T) {
 		var problems []map[string]any
 		bad := func(kind string, detail any) { problems = append(problems, map[string]any{"kind": kind, "detail": detail}) }
 		switch c.Kind {
+		case "twins":
+			// C02: the result may depend on the declared extent of the top-level item only
+			var va, vb ttlv.Value
+			da := decodeInto(append([]byte(nil), spec...), &va)
+			db := decodeInto(toBytes(c.Twin), &vb)
+			if da.Outcome == "panic" || da.Outcome == "timeout" || db.Outcome == "panic" || db.Outcome == "timeout" {
+				bad("c02:"+da.Outcome+"/"+db.Outcome, fmt.Sprint(da.Detail, db.Detail))
+			} else if da.Outcome == "value" && db.Outcome == "value" && canon(projValue(da.Value)) != canon(projValue(db.Value)) {
+				// (a decoder may be strict about what follows the top-level item: value on one side and error on the other is not an over-read)
+				bad("c02:result-depends-on-bytes-outside-the-declared-extent", map[string]any{"extent": c.Extent, "a": fmt.Sprintf("%x", spec), "b": fmt.Sprintf("%x", toBytes(c.Twin)),
+					"result_a": da.Outcome + ":" + canon(projValue(da.Value)), "result_b": db.Outcome + ":" + canon(projValue(db.Value))})
+			}
 		case "tree":
 			want := canon(projTree(c.Tree))
 			// (a) the library's encoder against the specification's bytes
@@ -315,6 +337,8 @@ func TestReplay(t *testing.T) {
 				bad("c03:encode-panic", pan)
 			} else if !bytes.Equal(got, spec) {
 				bad("c03:encoding-differs", map[string]any{"lib": fmt.Sprintf("%x", got), "spec": fmt.Sprintf("%x", spec)})
+			} else if len(got) <= 4096 {
+				kept = append(kept, keptEnc{got: got, spec: spec, idx: i}) // the slice itself, not a copy
 			}
 			if got2, pan := marshalReused(treeToValue(c.Tree), len(spec)); pan != "" {
 				bad("c03:encode-panic-on-reused-encoder", pan)
@@ -418,8 +442,27 @@ func TestReplay(t *testing.T) {
 			}
 		}
 		if len(problems) > 0 {
-			out.Emit(map[string]any{"case": i, "kind": c.Kind, "bytes": fmt.Sprintf("%x", spec), "problems": problems})
+			orig := i
+			if i >= n0 {
+				orig = 2*n0 - 1 - i // second pass (reverse order)
+			}
+			out.Emit(map[string]any{"case": orig, "kind": c.Kind, "bytes": fmt.Sprintf("%x", spec), "problems": problems})
 		}
 	}
-	out.Emit(map[string]any{"summary": true, "cases": n0, "replays": n})
+	// the encodings returned earlier are still what they were
+	changed := 0
+	for _, k := range kept {
+		if !bytes.Equal(k.got, k.spec) {
+			changed++
+			if changed <= 3 {
+				orig := k.idx
+				if orig >= n0 {
+					orig = 2*n0 - 1 - orig
+				}
+				out.Emit(map[string]any{"case": orig, "kind": "tree", "bytes": fmt.Sprintf("%x", k.spec), "problems": []map[string]any{{"kind": "c03:encoding-changed-by-later-calls",
+					"detail": map[string]any{"now": fmt.Sprintf("%x", k.got), "spec": fmt.Sprintf("%x", k.spec)}}}})
+			}
+		}
+	}
+	out.Emit(map[string]any{"summary": true, "cases": n0, "replays": n, "kept": len(kept), "kept_changed": changed})
 }
